@@ -2,7 +2,7 @@
 # usage: runall.sh [tier]  -- runs every claimed check in sequence, prints one summary line per property
 tier=${1:-quick}
 cd /verif
-for id in $(python3 -c "import json;print(' '.join(c['property'] for c in json.load(open('MANIFEST.json'))['checks']))"); do
+for id in $(python3 -c "import json;print(' '.join(c['property_id'] for c in json.load(open('MANIFEST.json'))['checks']))"); do
   bin/gosym check $id --tier $tier > /tmp/runall_$id.log 2>&1; rc=$?
   echo "$id exit=$rc $(grep '^property=' /tmp/runall_$id.log | cut -c1-160)"
   grep "^VIOLATION\|^KNOWN-FINDING" /tmp/runall_$id.log | cut -c1-160 | head -3
